@@ -602,6 +602,9 @@ class TestCase:  # noqa: PLR0904
                     # Variable is used later. It is NOT alive before this assignment.
                     alive_vars.remove(bv)
                     alive_vars.update(_get_used_variables(stmt))
+                elif any(getattr(assertion, "source", None) == bv for assertion in stmt.assertions):
+                    # Variable is read by the assertions of its own statement: keep it.
+                    alive_vars.update(_get_used_variables(stmt))
                 else:
                     # Variable is NOT used later. Transform Assign to Expr.
                     new_node = self._transform_assign_to_expr(stmt.node)
@@ -610,6 +613,9 @@ class TestCase:  # noqa: PLR0904
                             node=new_node,
                             bound_variable=None,
                             bound_type=None,
+                            assertions=stmt.assertions,
+                            accessible=stmt.accessible,
+                            ml_info=stmt.ml_info,
                         )
                     # Even if unused, the RHS might use other variables
                     alive_vars.update(_get_used_variables(stmt))
